@@ -18,3 +18,19 @@ Definition heis_step (L : nat) (periodic : bool) : list (hgate * (nat * nat)) :=
   map (pair HRzz) (ising_bonds L periodic) ++ map (pair HRxx) (ising_bonds L periodic) ++ map (pair HRyy) (ising_bonds L periodic).
 Definition bonds_of (g : hgate) (l : list (hgate * (nat * nat))) : list (nat * nat) :=
   map snd (filter (fun x => match fst x, g with HRz, HRz | HRzz, HRzz | HRxx, HRxx | HRyy, HRyy => true | _, _ => false end) l).
+(* create_1d_fermi_hubbard_circuit (one sub-step; qubit j = spin-up site j, qubit L + j = spin-down site j):
+     chemical potential (half angle), on-site interaction (half angle), hopping on even bonds then odd bonds (full angle),
+     on-site interaction (half), chemical potential (half)  —  angle classes  AMu = mu*dt/(2n), AU = -u*dt/(2n), AHop = -dt*t/n *)
+Inductive fhgate := FP (q : nat) | FCP (a b : nat) | FXX (a b : nat) | FYY (a b : nat).
+Inductive fhangle := AMu | AU | AHop.
+Definition fh_mu (L : nat) : list fhgate := flat_map (fun j => [FP j; FP (L + j)]) (seq 0 L).
+Definition fh_u (L : nat) : list fhgate := map (fun j => FCP j (L + j)) (seq 0 L).
+Definition fh_bond (L j : nat) : list fhgate := [FXX (j + 1) j; FYY (j + 1) j; FXX (L + j + 1) (L + j); FYY (L + j + 1) (L + j)].
+Definition fh_hop (L : nat) : list fhgate :=
+  flat_map (fun j => if Nat.even j then fh_bond L j else []) (seq 0 (L - 1)) ++
+  flat_map (fun j => if Nat.even j then [] else fh_bond L j) (seq 0 (L - 1)).
+Definition fh_step (L : nat) : list (fhangle * fhgate) :=
+  map (pair AMu) (fh_mu L) ++ map (pair AU) (fh_u L) ++ map (pair AHop) (fh_hop L) ++ map (pair AU) (fh_u L) ++ map (pair AMu) (fh_mu L).
+(* the spin-up XX hoppings as bonds (lower site, upper site) *)
+Definition fh_up_xx (L : nat) : list (nat * nat) :=
+  flat_map (fun g => match g with FXX a b => if a <? L then [(b, a)] else [] | _ => [] end) (fh_hop L).
